@@ -16,7 +16,6 @@ static RULE_REGEX: OnceLock<Pattern> = OnceLock::new();
 static RULE_SPLIT_REGEX: OnceLock<Pattern> = OnceLock::new();
 static DEFMODULE_REGEX: OnceLock<Pattern> = OnceLock::new();
 static DEFMODULE_SPLIT_REGEX: OnceLock<Pattern> = OnceLock::new();
-static WHEN_THEN_REGEX: OnceLock<Pattern> = OnceLock::new();
 static SALIENCE_REGEX: OnceLock<Pattern> = OnceLock::new();
 static TEST_CONDITION_REGEX: OnceLock<Pattern> = OnceLock::new();
 static TYPED_TEST_CONDITION_REGEX: OnceLock<Pattern> = OnceLock::new();
@@ -58,12 +57,6 @@ fn defmodule_split_regex() -> &'static Pattern {
     DEFMODULE_SPLIT_REGEX.get_or_init(|| {
         Pattern::new(r#"(?s)defmodule\s+[A-Z_]\w*\s*\{[^}]*\}"#)
             .expect("Invalid defmodule split regex pattern")
-    })
-}
-
-fn when_then_regex() -> &'static Pattern {
-    WHEN_THEN_REGEX.get_or_init(|| {
-        Pattern::new(r"when\s+(.+?)\s+then\s+(.+)").expect("Invalid when-then regex pattern")
     })
 }
 
@@ -457,16 +450,13 @@ impl GRLParser {
         // Parse salience from attributes section
         let salience = self.extract_salience(attributes_section)?;
 
-        // Parse when and then sections using cached regex
-        let when_then_captures =
-            when_then_regex()
-                .captures(rule_body)
-                .ok_or_else(|| RuleEngineError::ParseError {
-                    message: "Missing when or then clause".to_string(),
-                })?;
-
-        let when_clause = when_then_captures.get(1).unwrap().trim();
-        let then_clause = when_then_captures.get(2).unwrap().trim();
+        // Split the body at the `then` keyword that is outside string literals
+        let (when_clause, then_clause) =
+            Self::split_when_then(rule_body).ok_or_else(|| RuleEngineError::ParseError {
+                message: "Missing when or then clause".to_string(),
+            })?;
+        let when_clause = when_clause.trim();
+        let then_clause = then_clause.trim();
 
         // Parse conditions and actions
         let conditions = self.parse_when_clause(when_clause)?;
@@ -500,6 +490,50 @@ impl GRLParser {
         }
 
         Ok(rule)
+    }
+
+    /// Split a rule body `when <conditions> then <actions>` into its two clauses: the conditions
+    /// start after the first `when` that is followed by whitespace and end at the first `then`
+    /// that stands between whitespace OUTSIDE string literals (` then ` inside a string literal of
+    /// the conditions is part of the string). Both clauses must be non-empty.
+    fn split_when_then(body: &str) -> Option<(&str, &str)> {
+        let mut search = 0;
+        let cond_start = loop {
+            let at = search + body[search..].find("when")?;
+            let after = at + 4;
+            let ws: usize = body[after..]
+                .chars()
+                .take_while(|c| c.is_whitespace())
+                .map(|c| c.len_utf8())
+                .sum();
+            if ws > 0 {
+                break after + ws;
+            }
+            search = after;
+        };
+        let mut quote: Option<char> = None;
+        for (i, ch) in body[cond_start..].char_indices() {
+            let i = cond_start + i;
+            match quote {
+                Some(q) => {
+                    if ch == q {
+                        quote = None;
+                    }
+                }
+                None if ch == '"' || ch == '\'' => quote = Some(ch),
+                None if ch.is_whitespace() && i > cond_start => {
+                    let rest = body[i..].trim_start();
+                    if let Some(tail) = rest.strip_prefix("then") {
+                        let actions = tail.trim_start();
+                        if actions.len() < tail.len() && !actions.is_empty() {
+                            return Some((&body[cond_start..i], actions));
+                        }
+                    }
+                }
+                None => {}
+            }
+        }
+        None
     }
 
     fn parse_multiple_rules(&mut self, grl_text: &str) -> Result<Vec<Rule>> {
